@@ -5,4 +5,17 @@ func init() {
 		"(D1 fork.chain) every fork-epoch if-chain (Spec.ForkVersion, ForkDecoder.ForkDigest) walks the forks in registry order, without gaps, to the last fork, and each branch yields the item of the fork active in that interval; (D2 fork.registry) NewForkDecoder, BlockAllocator, EnvelopeToSignedBeaconBlock, UpgradeMaybe and every UpgradeToX name the same fork for the same slot (digest<-version, digest->block type, body type->signed block type, pre-state type->fork epoch->upgrade function, Fork{previous,current,epoch} written by the upgrade).",
 		"that a block signed under another fork version fails BLS verification (cryptographic, trusted to the BLS library); equality of envelope and block roots for all values.",
 		"fork.chain", "fork.registry")
+
+	prop("C04",
+		"(ssz.fields) the five hand-written field lists of every SSZ container agree with one another, list every struct field once, and agree on spec.Wrap; (ssz.coll) every collection type uses the same kind, bound and element in Deserialize and HashTreeRoot; (ssz.size) FixedLength/ByteLength equal the structural size computed symbolically in the spec constants, 0 exactly for variable-size types, and follow the canonical list formulas; (ssz.elemsize) element-size arguments and FixedLenContainer use match the element's/fields' fixedness; (ssz.descriptor) struct form equals the view-form schema recursively. Because limits are compared as polynomials over spec constants, agreement holds for every configuration, not only mainnet/minimal.",
+		"that ztyp's codec itself is correct (trusted); value-level round-trip equality; the JSON/YAML clause (tag spelling does not determine round-tripping, no sound shape rule exists); refusal of malformed offsets inside ztyp.",
+		"ssz.fields", "ssz.coll", "ssz.size", "ssz.elemsize", "ssz.descriptor", "codec.scope")
+	prop("C05",
+		"(ssz.fields) HashTreeRoot lists the same fields in the same order as the codec methods; (ssz.coll) struct-form hashers use the same limits/lengths as decoding and pack basic elements at their own width; (ssz.descriptor) the struct form's shape equals the view descriptor's shape position by position and recursively, so both merkleize against the same schema; (view.build) struct->view constructors and fork upgrades place every value at the position of the field it came from; (view.elem) element views written into packed lists have the descriptor's element width; (codec.scope) struct->view helpers decode with the full byte length.",
+		"ztyp merkleization and subtree-hash caching (trusted); hand-written HashTreeRoot bodies of fixed byte-array leaf types; staleness of cached roots under mutation sequences is a property of ztyp's persistent tree, outside zrnt's source.",
+		"ssz.fields", "ssz.coll", "ssz.descriptor", "view.build", "view.elem", "codec.scope")
+	prop("C15",
+		"(view.index) all index-addressed accesses of all container views (six fork states and every sub-view) use an in-range constant index, apply a wrapper whose shape matches FieldDef[i], and an accessor named after a field never indexes another field; (view.iota) index-constant blocks are dense, complete, and spell the descriptor's field order; (view.raw) Raw() rebuilds each struct field from the index of that field; (view.build)/(lit.copy) positional constructors and same-name field copies do not cross fields; (view.elem) typed sub-views write elements of the right width; (ssz.descriptor) the descriptor the indices refer to is the struct's schema.",
+		"that ztyp's persistent tree keeps copies independent (trusted); independence of EpochsContext clones is decided under C08 rules; value-level getter/setter round trips.",
+		"view.index", "view.iota", "view.raw", "view.build", "view.elem", "lit.copy", "ssz.descriptor")
 }
